@@ -1,7 +1,7 @@
 (* C04 — balance predicate over paths, the flattened call chains, and the
    decoding of fault-enumeration cases.  No proofs here. *)
 From Coq Require Import List String Bool Arith ZArith.
-From Verif Require Import lib.Wire c04.Events c04.Model c04.Close gen.Paths_c04.
+From Verif Require Import lib.Wire c04.Events c04.Model c04.Close c04.Accept gen.Paths_c04.
 Import ListNotations.
 Local Open Scope string_scope.
 
@@ -171,7 +171,7 @@ Definition report : list (string * list (nat * list string)) :=
          upgrader listener, 3 = stream open (host.NewStream), 4 = swarm/host close,
          6 = raw TCP client against the shared tcpreuse listener, 7 = QUIC dial /
          accept with a rejecting gater or a refusing resource manager
-         (5 = close race, own format: Close.v)
+         (5 = close race, own format: Close.v; 8 = accept pipeline against listener.Close, own format: Accept.v)
    err: 1 = the operation reported an error / no connection was delivered, 0 = success
    raw_closed_*: 1 = the harness's raw net.Conn on that end observed Close/EOF
    scope_delta_*: usage(system+transient) after - before the attempt
@@ -185,6 +185,7 @@ Local Open Scope Z_scope.
 Definition monitor_case (l : list Z) : list Z :=
   match l with
   | 5 :: r => close_monitor r      (* close race on a real swarm: see Close.v *)
+  | 8 :: r => accept_monitor r     (* listener.Close racing with in-flight accepts: see Accept.v *)
   | [kind; cfg; fk; fi; err; rcl; rcr; dconn; dfd; dmem; dstr; gl] =>
       let ok_raw := (rcl =? 1) && ((rcr =? 1) || (rcr =? 2)) in   (* 2 = not applicable *)
       let ok_scope := (dconn =? 0) && (dfd =? 0) && (dmem =? 0) && (dstr =? 0) in
@@ -223,6 +224,7 @@ Definition end_released (vr : bool) (s : st) : bool :=
 Definition conform_case (l : list Z) : list Z :=
   match l with
   | 5 :: r => close_conform r
+  | 8 :: r => accept_conform r
   | [kind; cfg; fk; fi; err; rcl; rcr; dconn; dfd; dmem; dstr; gl] =>
       if kind =? 4 then [] else
       match entry_of_kind kind cfg with
